@@ -26,7 +26,8 @@ LEVEL = 'exploration'
 RULE = ('Hypothesis-generated paired (C declarations, dump XML) for namespace Foo: 1-4 classes with parent chains of '
         'length 1-6 through in-namespace classes, fixture classes and HIDDEN types (named in parents= only), ending in '
         'GObject / GInitiallyUnowned; 0-2 fundamental types; 0-2 interfaces with in-namespace / fixture / GObject / unknown '
-        'prerequisites; boxed and pointer types with / without a same-named struct or union (tagged, anonymous, opaque); '
+        'prerequisites; boxed and pointer types with / without a same-named struct or union (tagged, anonymous, opaque) or '
+        'with a same-named plain typedef; '
         'enums/flags scanned and/or registered with values that differ in 32-bit signedness between header and dump; '
         'error-quark functions with and without a matching enumeration; instance structs; class / Iface / Interface structs '
         '(tagged, anonymous, opaque, absent) with function-pointer members (inline or through a callback typedef) whose '
@@ -40,6 +41,9 @@ ASSUMPTIONS = [
     'substrate P: cmodel.to_symbols mirrors scannerparser.y (DESIGN appendix D); the C lexer/parser is not exercised',
     'the dump document is generated from the format of gdump.c (read, not executed: no GLib in the sandbox); elements are '
     'ordered like functions.txt (get-type functions in declaration order, then error quarks)',
+    'for ~31 of 32 generated cases the shell "introspection binary" of vlib.pipeline is replaced by an in-process function '
+    'with the same effect (a /bin/sh spawn costs ~200 ms on this VM); the grids, the replay corpus and ~1 in 32 generated '
+    'cases spawn it for real',
     'dependency GIRs are the miniature fixtures in /verif/fixtures; "known" = registered by the dump in this namespace or '
     'carrying glib:type-name in an included fixture',
     'unknown <implements>/<prerequisite> names are in domain and must simply not be emitted (the GIR cannot name a type '
